@@ -1,6 +1,6 @@
 (* Router/RouterProofs.v — facts about the request path model (C03, C10, C12). *)
 From Mos Require Import Base.Prelude Codec.Name Codec.Msg Codec.Spec Codec.NameProofs Codec.SafetyProofs Codec.WfProofs
-  Codec.RoundtripProofs Codec.TruncProofs Router.Rules Router.Edns Router.Router Router.RouterSpec.
+  Codec.RoundtripProofs Codec.TruncProofs Codec.CompressProofs Router.Rules Router.Edns Router.Router Router.RouterSpec.
 From Coq Require Import ZifyN ZifyNat ZifyBool.
 
 (* ====================== rules (C10) ====================== *)
@@ -750,6 +750,44 @@ Proof.
   - cbn; lia.
   - cbn; lia.
   - cbn; lia.
+Qed.
+
+(* ---------- the limiter / over-concurrency refusal path (C09 / C15): packed WITHOUT a size limit ---------- *)
+(* makeEmptyRespM copies at most ONE question, so the response is small whatever the query looked like *)
+Lemma empty_resp_m_len m rc : msg_len (empty_resp_m m rc) <= 271.
+Proof.
+  unfold msg_len, empty_resp_m. cbn [m_qs m_an m_ns m_ar sum_len fold_right].
+  destruct (m_qs m) as [|q qs]; cbn [firstn sum_len fold_right]; [lia|].
+  unfold q_len, name_pack_len. lia.
+Qed.
+
+(* the bytes written for a refused (decoded) query: one REFUSED response of at most 271 octets — below every
+   transport's limit, although this path packs with size 0 (no limit) on UDP *)
+Theorem refuse_size l q : wf_msg q ->
+  exists b, refuse l q = [b] /\
+            match l with
+            | LTcp => exists body, b = be16n (length body) ++ body /\ length body <= max_size
+            | _ => length b <= 271
+            end.
+Proof.
+  intros Hw. unfold refuse, must_have_resp.
+  set (e := empty_resp_m q RCodeRefused).
+  assert (He : wf_msg e) by (apply empty_resp_m_wf; [exact Hw|unfold RCodeRefused; lia]).
+  pose proof (empty_resp_m_len q RCodeRefused) as Hl. fold e in Hl.
+  destruct l; cbn [Nat.min].
+  - (* UDP: size 0 *)
+    destruct (compressed_roundtrip_all e [] He) as (out & _ & Hp & _ & _ & Hlen).
+    change (Nat.min 0 max_size) with 0. rewrite Hp. eexists. split; [reflexivity|lia].
+  - (* stream: size 65535 *)
+    assert (Hms : max_size = N.to_nat 65535) by reflexivity.
+    destruct (pack_msg_total (msg_len e) true max_size e He (le_n _)) as [b Hb]. rewrite Hb.
+    eexists. split; [reflexivity|]. exists b. split; [reflexivity|].
+    assert (512 <= max_size) as Hs by (rewrite Hms; lia).
+    rewrite <- (eff_size_ge max_size Hs). eapply pack_msg_size_bound; eauto; [lia|].
+    rewrite eff_size_ge by exact Hs. unfold opt_len, e, empty_resp_m. cbn. lia.
+  - (* DoH: size 0 *)
+    destruct (compressed_roundtrip_all e [] He) as (out & _ & Hp & _ & _ & Hlen).
+    change (Nat.min 0 max_size) with 0. rewrite Hp. eexists. split; [reflexivity|lia].
 Qed.
 
 Definition rules_ok (rules : list rule) : Prop := Forall (fun r => (ru_reject r < 16)%N) rules.
